@@ -336,3 +336,52 @@ Proof.
   destruct (step c q st1 l d) as [st1' o]. cbn [fst snd] in Htr. subst st1'.
   destruct (run c q st1 h2) as [st2 o2]. cbn [fst snd]. auto.
 Qed.
+
+(* ---------- named consequences: what never continues a group ---------- *)
+Definition is_continuation (s : sentence) : Prop :=
+  2 <= s_fragment_number s /\ (has_more s = true \/ is_fragment s = true).
+
+Lemma continuation_needs_seq c q st s d f :
+  data_fits c s -> is_continuation s -> snd (handle c q st s d) = Ok f -> seq_ok st s = true.
+Proof.
+  intros Hfit [Hk Hfr] Hok. rewrite (handle_spec c q st s d Hfit) in Hok. unfold classify in Hok.
+  destruct (has_more s).
+  - destruct (N.eqb_spec (s_fragment_number s) 1); [lia|]. destruct (seq_ok st s); [reflexivity|discriminate].
+  - destruct Hfr as [Hf|Hf]; [discriminate|]. rewrite Hf in Hok. destruct (seq_ok st s); [reflexivity|discriminate].
+Qed.
+
+(* a duplicate of the fragment just accepted, a fragment further ahead (loss) or behind (reordering) *)
+Theorem wrong_number_rejected c q st s d :
+  data_fits c s -> is_continuation s -> s_fragment_number s <> p_fn st + 1 ->
+  handle c q st s d = (st, Err ENmea).
+Proof.
+  intros Hfit [Hk Hfr] Hne. rewrite (handle_spec c q st s d Hfit). unfold classify, seq_ok.
+  destruct (N.eqb_spec (s_fragment_number s) (p_fn st + 1)); [contradiction|]. rewrite Bool.andb_false_r. cbn [negb].
+  destruct (has_more s).
+  - destruct (N.eqb_spec (s_fragment_number s) 1); [lia|reflexivity].
+  - destruct Hfr as [Hf|Hf]; [discriminate|]. rewrite Hf. reflexivity.
+Qed.
+
+(* a fragment of another sequence id *)
+Theorem wrong_id_rejected c q st s d :
+  data_fits c s -> is_continuation s -> s_message_id s <> p_id st ->
+  handle c q st s d = (st, Err ENmea).
+Proof.
+  intros Hfit [Hk Hfr] Hne. rewrite (handle_spec c q st s d Hfit). unfold classify, seq_ok.
+  destruct (opt_eqb (p_id st) (s_message_id s)) eqn:E; [apply opt_eqb_eq in E; congruence|]. cbn [andb negb].
+  destruct (has_more s).
+  - destruct (N.eqb_spec (s_fragment_number s) 1); [lia|reflexivity].
+  - destruct Hfr as [Hf|Hf]; [discriminate|]. rewrite Hf. reflexivity.
+Qed.
+
+(* an orphan: no group is open (fresh parser, or the group was just delivered) *)
+Theorem orphan_rejected c q st s d :
+  data_fits c s -> is_continuation s -> p_fn st = 0 -> handle c q st s d = (st, Err ENmea).
+Proof. intros Hfit Hc H0. apply wrong_number_rejected; auto. destruct Hc as [Hk _]. rewrite H0. lia. Qed.
+
+(* delivering a group leaves no group open, whatever the payload decodes to *)
+Theorem delivery_closes_group c q st s d st' o :
+  data_fits c s -> classify c st s = FinalFragment -> handle c q st s d = (st', o) -> p_fn st' = 0 /\ p_data st' = [].
+Proof.
+  intros Hfit Hc H. rewrite (handle_spec c q st s d Hfit), Hc in H. injection H as <- _. split; reflexivity.
+Qed.
